@@ -686,6 +686,58 @@ func (c *Ctx) checkC11Login(handlerOfKind map[string]*ssa.Function) {
 		ok, cnt = core.GuardedByNil(login, p, gState)
 		r.Check(ok && cnt[0] > 0, "C11.4-login-gates", base+" / account state OK", c.pos(p),
 			"every feasible path to post-login passes rec.State==StateOK", "post-login reachable for a suspended/deleted account (some path does not compare the account state with StateOK)")
+		// every error-returning call whose other results feed the post-login call has succeeded
+		core.AllInstrs(login, func(in ssa.Instruction) {
+			call, ok := in.(*ssa.Call)
+			if !ok || ssa.Instruction(call) == p.(ssa.Instruction) || errIndex(call.Call.Signature()) < 0 || call.Call.Signature().Results().Len() < 2 {
+				return
+			}
+			if core.CalleeOf(&call.Call) == authn {
+				return
+			}
+			feeds := false
+			for _, a := range p.Common().Args {
+				if derivesAny(a, func(v ssa.Value) bool {
+					ex, ok := v.(*ssa.Extract)
+					return ok && ex.Tuple == ssa.Value(call)
+				}) {
+					feeds = true
+				}
+			}
+			if !feeds {
+				return
+			}
+			// on the paths that executed the call: the post-login call is reachable only through its success edge
+			cutS, _ := core.PassEdges(login, successGuard(call))
+			reached := false
+			wr := core.NilWalkAfter(login, call, cutS, nil, func(x ssa.Instruction, _ core.NilFacts) {
+				if x == p.(ssa.Instruction) {
+					reached = true
+				}
+			})
+			okc := !reached && !wr.Overflow
+			r.Check(okc, "C11.4b-inputs-of-login-checked", fmt.Sprintf("%s: %s succeeded before its result is used to log in", fk(login), describeCall(call)), c.pos(call), "",
+				"the session is authenticated although a lookup that decides what is still to be validated failed (its error is not the one that is tested)")
+		})
+	}
+	// every other call site of the post-login function is behind Session.uid.IsZero() as well
+	seenPost := map[*ssa.Function]bool{}
+	for _, p := range post {
+		pf := p.Common().StaticCallee()
+		if pf == nil || seenPost[pf] {
+			continue
+		}
+		seenPost[pf] = true
+		for _, cs := range c.callersOf(pf) {
+			if cs.Caller == login {
+				continue
+			}
+			r.Func(fk(cs.Caller))
+			g1 := core.BoolGuard("Session.uid.IsZero()", core.IsCallTo(isZero, core.IsFieldLoad(sessUid)), true)
+			ok, cnt := core.GuardedByCorr(cs.Caller, cs.Site.(ssa.Instruction), g1)
+			r.Check(ok && cnt[0] > 0, "C11.4c-login-once", fk(cs.Caller)+": post-login call only for a session that is not authenticated yet", c.pos(cs.Site), "",
+				"an authenticated session can log in again (as another user) through this path while staying attached to the previous user's topics")
+		}
 	}
 }
 
